@@ -110,7 +110,10 @@ TMoveI ==
 
 TMoveB ==
   /\ l > 1 /\ Rec.e = "MoveB" /\ ph \in {"I", "Bp"} /\ has /\ nb /\ Rec.legal
-  /\ LET cl == StateClauses(Rec, "Bm") IN Judge(cl, {}, "MoveB", NumU(Rec)) /\ ok' = (ok /\ cl = {})
+  \* Rec.edge: a second, non-parallel surface within 10 eps of the arrival point (oracle): edge / corner
+  \* states are outside the property, the history is not judged further
+  /\ LET cl == IF Rec.edge THEN {} ELSE StateClauses(Rec, "Bm")
+     IN Judge(cl, {}, "MoveB", NumU(Rec)) /\ ok' = (ok /\ cl = {} /\ ~Rec.edge)
   /\ ph' = "Bm" /\ has' = FALSE /\ nb' = FALSE
   /\ UNCHANGED ub
 
@@ -132,14 +135,16 @@ TCross ==
 \* (direction . TRUE normal) supplied by the independent oracle (tools/oracle_geo.py normal_at).
 TSetDir ==
   /\ l > 1 /\ Rec.e = "SetDir" /\ ph \in {"I", "Bm", "Bp"}
-  /\ LET cl == StateClauses(Rec, ph) \cup IfF(Rec.f_dec, "C03.ReentrantDecision")
+  /\ LET sc == StateClauses(Rec, ph)
+         cl == sc \cup IfF(Rec.f_dec, "C03.ReentrantDecision")
      IN /\ viol' = Bump(viol, IF ok THEN cl ELSE {}) /\ dev' = dev
         /\ stat' = [stat EXCEPT !["SetDir"] = @ + 1, ![IF ok THEN "judged" ELSE "unjudged"] = @ + 1,
                                 !["facts_U"] = @ + NumU(Rec),
                                 !["turns_exiting"] = @ + (IF ok THEN Rec.dx ELSE 0),
                                 !["turns_reentrant"] = @ + (IF ok THEN Rec.dr ELSE 0),
                                 !["turns_near_tangent"] = @ + (IF ok THEN Rec.dt ELSE 0)]
-        /\ ok' = (ok /\ cl = {})
+        \* a wrong decision does not end the judgement: the volume after cross_boundary is judged too
+        /\ ok' = (ok /\ sc = {})
   /\ has' = FALSE /\ nb' = FALSE
   /\ UNCHANGED <<ph, ub>>
 
